@@ -4,8 +4,9 @@ package main
 
 // families that exist for the v5 module only (they need the staged codec or v5's validation)
 var v5Families = map[string]func(*engine, int, []byte) error{
-	"decode": (*engine).checkDecodeLine,
-	"word":   (*engine).checkWordLine,
-	"enc":    (*engine).checkEncLine,
-	"cli":    (*engine).checkCliLine,
+	"decode":  (*engine).checkDecodeLine,
+	"word":    (*engine).checkWordLine,
+	"enc":     (*engine).checkEncLine,
+	"cli":     (*engine).checkCliLine,
+	"history": (*engine).checkHistoryLine,
 }
